@@ -15,6 +15,7 @@ EvLocator ==
          vs == IF e.panic # "" THEN {"panic"}
                ELSE IF e.err # "" THEN {"locator-rejected"}
                ELSE LocatorVerdicts(e.loc, e.pre, e.regions)
+                    \cup (IF e.regions2 # e.regions THEN {"locator-second-call"} ELSE {})
      IN verdicts' = verdicts \cup {<<l, e.case, e.locstr, v, "-">> : v \in vs}
   /\ njudged' = njudged + 1
 
